@@ -24,6 +24,7 @@
 #include <boost/property_tree/ptree.hpp>
 #include <vf/vf.hpp>
 #include <functional>
+#include <omp.h>
 #include <algorithm>
 #include <memory>
 #include <map>
@@ -155,6 +156,19 @@ inline void run_table(TableBase &tb, long idx, int rep) {
         { unknown_log().clear(); Obj e(tb.ops.make(&base), &tb.ops);
           for (auto &f : tb.fields) if (!f.optional_in_rep) c.check(f.equal(mem(e, f), mem(dflt, f)), "param:" + C + "." + f.key + ":empty-tree-differs-from-default", "member built from an empty tree is " + f.str(mem(e, f)) + ", default-constructed member is " + f.str(mem(dflt, f)));
           c.check(unknown_log().empty(), "param:" + C + ":valid-key-reported-unknown:" + first_unknown(), "mandatory key reported as unknown"); }
+        // thread-count history inside one process: some defaults are functions of the OpenMP thread count (ilu_solve::serial =
+        // max_threads < 4).  "Import of an empty tree == default construction" must hold at every point of a history
+        // 2 -> 8 -> 2 threads (odd cases: 8 -> 2 -> 8), i.e. an absent key takes the default of NOW, as the compile-time
+        // composition does.  Only params objects are built here, no parallel region runs with the changed count.
+        { int saved = omp_get_max_threads(); const int hist[2][3] = {{2, 8, 2}, {8, 2, 8}};
+          for (int step = 0; step < 3; ++step) { int nt = hist[idx % 2][step]; omp_set_num_threads(nt);
+            Obj d2(tb.ops.make(tb.base ? &base : nullptr), &tb.ops), e2(tb.ops.make(&base), &tb.ops);
+            for (auto &f : tb.fields) if (!f.optional_in_rep) c.check(f.equal(mem(e2, f), mem(d2, f)), "param:" + C + "." + f.key + ":empty-tree-differs-from-default-after-thread-count-change",
+                "history step " + std::to_string(step) + " (omp_set_num_threads(" + std::to_string(nt) + ")): member built from an empty tree is " + f.str(mem(e2, f)) + ", default-constructed member is " + f.str(mem(d2, f)));
+            if (WithExport) { ptree o1, o2; tb.ops.get(d2.p, o1, ""); tb.ops.get(e2.p, o2, "");
+                c.check(o1 == o2, "param:" + C + ":export-of-empty-tree-import-differs-from-export-of-default-after-thread-count-change", "omp_set_num_threads(" + std::to_string(nt) + ")"); }
+          }
+          omp_set_num_threads(saved); vf::obs_sum("thread_history_steps", 3); }
         // import of a full tree
         int variant = rep == 0 ? 0 : 1 + rep % 2;
         ptree t = base; std::vector<char> present(tb.fields.size(), 1);
